@@ -17,6 +17,7 @@ for key in keys:
         if "-v" in sys.argv: traceback.print_exc()
         continue
     if getattr(v, "vacuous", False): print("!! VACUOUS", key)
+    if getattr(v, "vacuous_paths", None): print("!! VACUOUS PATHS", key, v.vacuous_paths[:3])
     print("==", key, "%d obligations, %.2fs symexec" % (len(obs), time.time() - t0))
     for ob in obs:
         r = check(ob, v.axioms(), 10000)
